@@ -133,13 +133,15 @@ def _run_impl(case: dict) -> dict:
     async def main(loop):
         import signal
 
+        # (the budget is CPU time of this process, not wall time: a loaded machine must not look like a busy loop)
         def on_alarm(signum, frame):
             hang['hit'] += 1
-            signal.setitimer(signal.ITIMER_REAL, _c10.HANG_S)
+            signal.setitimer(signal.ITIMER_PROF, _c10.HANG_S)
             raise _c10._Hang()
+        old_prof = None
         try:
-            signal.signal(signal.SIGALRM, on_alarm)
-            signal.setitimer(signal.ITIMER_REAL, _c10.HANG_S)
+            old_prof = signal.signal(signal.SIGPROF, on_alarm)
+            signal.setitimer(signal.ITIMER_PROF, _c10.HANG_S)
         except ValueError:
             pass
         audit = SiteAudit(loop)
@@ -455,6 +457,12 @@ def _run_impl(case: dict) -> dict:
                     'dial_obfuscated': [bool(c.obfuscated) for c in dconn],
                     'loop_exceptions': [e for e in loop.exceptions if e.get('type') not in (None, 'CancelledError', '_Hang')]}
         finally:
+            try:
+                signal.setitimer(signal.ITIMER_PROF, 0)
+                if old_prof is not None:
+                    signal.signal(signal.SIGPROF, old_prof)
+            except ValueError:
+                pass
             fn.uninstall()
             audit.close()
             try:
